@@ -1,13 +1,24 @@
 (* Proofs/CorrP.v — lemmas about Model/Corr.v (property C20, correlation / normalisation part) *)
 From Coq Require Import QArith List Arith Bool ZArith Lia Psatz Setoid Morphisms.
 From NT Require Import QC Sums CS Corr.
+Import ListNotations.
 Open Scope Q_scope.
 
 (* ------------------------------------------------------------------ reduced sums *)
 Lemma cred_eq z : cred z =c= z.
 Proof. split; unfold cred, re, im; simpl; apply Qred_correct. Qed.
+Lemma czerob_c0 z : czerob z = true -> z =c= c0.
+Proof.
+  unfold czerob. destruct z as [[a b] [c d]]; simpl. destruct a; try discriminate. destruct c; try discriminate.
+  intros _. split; reflexivity.
+Qed.
 Lemma csumr_eq f n : csumr f n =c= csumn f n.
-Proof. induction n; cbn [csumr csumn]; [reflexivity|]. rewrite cred_eq, IHn. reflexivity. Qed.
+Proof.
+  induction n; cbn [csumr csumn]; [reflexivity|]. cbv zeta.
+  destruct (czerob (f n)) eqn:E.
+  - rewrite (czerob_c0 _ E), IHn. symmetry. apply cadd_0_r.
+  - rewrite cred_eq, IHn. reflexivity.
+Qed.
 Lemma sumr_eq f n : sumr f n == sumn f n.
 Proof. induction n; cbn [sumr sumn]; [reflexivity|]. rewrite Qred_correct, IHn. reflexivity. Qed.
 
@@ -496,3 +507,71 @@ Section CorrSpec.
     sumn (onesided n (corrspec_num X1 X2)) (corrspec_len n) == inj n * sumn (fun t => x1 t * x2 t) n.
   Proof. intros Hn Hs. rewrite <- corrspec_total. apply (fold_sum n _ Hn Hs). Qed.
 End CorrSpec.
+
+(* ------------------------------------------------------------------ arrays and axes *)
+Lemma flat_map_uniform_length {A B} (f : A -> list B) L l :
+  (forall a, In a l -> length (f a) = L) -> length (flat_map f l) = (length l * L)%nat.
+Proof.
+  induction l as [|a l IH]; intros H; [reflexivity|].
+  simpl. rewrite app_length, IH, (H a) by (try (left; reflexivity); intros; apply H; right; assumption). reflexivity.
+Qed.
+
+Lemma nth_flat_map_seq {B} (f : nat -> list B) L (d : B) : forall n s a b,
+  (forall k, length (f k) = L) -> (a < n)%nat -> (b < L)%nat ->
+  nth (a * L + b) (flat_map f (seq s n)) d = nth b (f (s + a)%nat) d.
+Proof.
+  induction n; intros s a b HL Ha Hb; [lia|].
+  cbn [seq flat_map]. destruct a as [|a].
+  - simpl. rewrite app_nth1 by (rewrite HL; exact Hb). rewrite Nat.add_0_r. reflexivity.
+  - rewrite app_nth2 by (rewrite HL; simpl; lia). rewrite HL.
+    replace (S a * L + b - L)%nat with (a * L + b)%nat by (simpl; lia).
+    rewrite IHn by (try assumption; lia). f_equal. f_equal. lia.
+Qed.
+
+Lemma nth_map_seq_gen {B} (f : nat -> B) (d : B) : forall n s k, (k < n)%nat -> nth k (map f (seq s n)) d = f (s + k)%nat.
+Proof.
+  induction n; intros s k Hk; [lia|]. cbn [seq map]. destruct k as [|k].
+  - rewrite Nat.add_0_r. reflexivity.
+  - cbn [nth]. rewrite IHn by lia. f_equal. lia.
+Qed.
+Lemma nth_map_seq {B} (f : nat -> B) (d : B) n k : (k < n)%nat -> nth k (map f (seq 0 n)) d = f k.
+Proof. intros H. rewrite nth_map_seq_gen by exact H. reflexivity. Qed.
+
+Lemma along_length outer M inner g : length (along outer M inner g) = (outer * (M * inner))%nat.
+Proof.
+  unfold along. cbv zeta.
+  rewrite (flat_map_uniform_length _ (M * inner)), seq_length; [reflexivity|].
+  intros o _. rewrite (flat_map_uniform_length _ inner), seq_length; [reflexivity|].
+  intros t _. rewrite map_length, seq_length. reflexivity.
+Qed.
+
+(* entry (o, t, i) of the assembled array is entry t of the result of lane (o, i) *)
+Lemma along_nth outer M inner g o t i : (o < outer)%nat -> (t < M)%nat -> (i < inner)%nat ->
+  nth ((o * M + t) * inner + i) (along outer M inner g) c0 = nth t (g o i) c0.
+Proof.
+  intros Ho Ht Hi. unfold along. cbv zeta.
+  replace ((o * M + t) * inner + i)%nat with (o * (M * inner) + (t * inner + i))%nat by nia.
+  rewrite (nth_flat_map_seq _ (M * inner)); [| |exact Ho|nia].
+  2:{ intros k. rewrite (flat_map_uniform_length _ inner), seq_length; [reflexivity|].
+      intros t' _. rewrite map_length, seq_length. reflexivity. }
+  rewrite (nth_flat_map_seq _ inner); [| |exact Ht|exact Hi].
+  2:{ intros k. rewrite map_length, seq_length. reflexivity. }
+  cbn [Nat.add]. rewrite !nth_map_seq by assumption. reflexivity.
+Qed.
+
+(* the lanes along an axis are a decomposition of the array: taking every lane and laying the
+   lanes out again gives the array back *)
+Lemma lane_list_length d N inner o i : length (lane_list d N inner o i) = N.
+Proof. unfold lane_list. rewrite map_length, seq_length. reflexivity. Qed.
+
+Lemma lane_list_nth d N inner o i t : (t < N)%nat ->
+  nth t (lane_list d N inner o i) c0 = nth ((o * N + t) * inner + i) d c0.
+Proof.
+  intros Ht. unfold lane_list. rewrite nth_map_seq by exact Ht. reflexivity.
+Qed.
+
+Lemma along_lanes_id d outer N inner : length d = (outer * (N * inner))%nat ->
+  forall o t i, (o < outer)%nat -> (t < N)%nat -> (i < inner)%nat ->
+  nth ((o * N + t) * inner + i) (along outer N inner (fun o i => lane_list d N inner o i)) c0 =
+  nth ((o * N + t) * inner + i) d c0.
+Proof. intros _ o t i Ho Ht Hi. rewrite along_nth by assumption. apply lane_list_nth. exact Ht. Qed.
